@@ -73,6 +73,20 @@ def main():
         meta['check'] = {'cmd': 'FE_REPO=<worktree with the change> ./check %s --tier %s' % (a.prop, a.tier), 'exit': rc3,
                          'seconds': round(time.time() - t, 1), 'output': lines[:8]}
         meta['detected'] = (rc3 == 1)
+        # keep the failing inputs as regression corpus (run first by later checks)
+        for mm in re.finditer(r'VIOLATION property=%s replay=(\S+)' % a.prop, o3):
+            rp = os.path.join(VERIF, mm.group(1))
+            if os.path.exists(rp):
+                cd = os.path.join(VERIF, 'tools', 'corpus', a.prop)
+                os.makedirs(cd, exist_ok=True)
+                try:
+                    obj = json.load(open(rp))
+                    if isinstance(obj.get('input'), dict):
+                        nm = (a.name or a.prop) + '-' + os.path.basename(rp)
+                        json.dump({'from': 'seeded ' + (a.name or ''), 'signature': obj.get('signature'), 'input': obj['input']},
+                                  open(os.path.join(cd, nm), 'w'))
+                except Exception:
+                    pass
         print(json.dumps(meta, indent=1))
     finally:
         sh('git -C /repo worktree remove --force %s' % wt)
